@@ -812,6 +812,519 @@ def guard_random(rng, n):
     return out
 
 
+# ---------------------------------------------------------------------------------------------
+# table stream: the overwrite guards over the buffer table bufs[] (coq/IoTableDefs.v).
+#   2..5 open buffers (files a, b, c, d: loaded with :e / :e! in different orders, so that the write target is the
+#   current buffer's own path, the alternate buffer `#`, a deeper slot, a name that is open nowhere (z), or a symbolic
+#   link lb to an open buffer's file) x target state {as loaded, changed on disk since (newer), absent at load and still
+#   absent, absent at load and created since, present at load and removed since; z: existing / epoch-dated / absent}
+#   x {w, w!, a,bw, a,bw!, wq, wq!, x, x!, xa, xa!} [path] x current buffer modified or not, target buffer modified in
+#   memory or not, current buffer in step by reading / by an earlier :w / by :e! (re-read).
+# No fault injection.  Same machinery as the guard stream (foreign operations from inside the session, stamps by touch -d,
+# snapshots by `:w !sh s.sh TAG %` -- the editor expands % and # itself, so the snapshot also records which path is the
+# current and which the alternate one AS THE EDITOR SEES IT).  Oracle = the first sentence of the property on those
+# observables: a write without ! to a path that exists and is not the current buffer's own file as last read / written
+# (another buffer's path, a path open nowhere, the own path changed on disk or loaded as absent) must be refused with the
+# file bytes and the whole directory unchanged, no success message, no quit, no open of any tracked name; also for the
+# save loop of xa; success => exactly the lines; nothing lost when the editor is gone.  Model side = request `ts`.
+
+TN = ['a', 'b', 'c', 'd', 'z', 'lb']
+T_NLINES = {'a': 2, 'b': 3, 'c': 1, 'd': 4, 'z': 3}
+
+
+def t_c0(name):
+    return b''.join(b'%s%d\n' % (name.encode(), i) for i in range(T_NLINES[name]))
+
+
+T_SNAP_SH = """cat > /dev/null
+stat -L -c '%n %Y' a b c d z lb > "snap.$1.m" 2>/dev/null
+mkdir "cont.$1" && cp -L a b c d z lb "cont.$1"/ 2>/dev/null
+echo "$2" > "snap.$1.cur"
+echo "$3" > "snap.$1.alt"
+if [ "$1" = c ]; then mkdir dir.c && cp -P a b c d z lb dir.c/ 2>/dev/null; fi
+(wc -l < shim.log) > "snap.$1.nlog" 2>/dev/null
+true
+"""
+
+
+def t_cmdline(case):
+    cmd, arg = case['cmd'], case.get('arg', '')
+    tail = (b' ' + arg.encode()) if arg else b''
+    if cmd.startswith('rw'):
+        b, e = case['rng']
+        return b'%d,%dw%s%s' % (b + 1, e, b'!' if cmd.endswith('!') else b'', tail)
+    return cmd.encode() + tail
+
+
+def t_script(case):
+    two = [False]         # a second buffer has been opened for certain: `#` is set (else the expansion fails the command)
+
+    def snap(tag):
+        return [b'w !sh s.sh %s %% #' % tag if two[0] else b'w !sh s.sh %s %%' % tag]
+    sc = snap(b'0')
+    for k, st in enumerate(case['steps']):
+        tag = b'%d' % (k + 1)
+        if st[0] == 'e':
+            sc.append((b'e! ' if st[2] else b'e ') + st[1].encode())
+            if st[2] and st[1] not in ('a', '#', '%'):
+                two[0] = True
+            sc += snap(tag)
+        elif st[0] == 'reload':
+            sc.append(b'e!')
+            sc += snap(tag)
+        elif st[0] == 'edit':
+            sc += [b'0a', st[1].encode(), b'.']
+        elif st[0] == 'w':
+            sc += [b'ec C03qM%daz' % k, (b'w' + st[1].encode() + b' ' + st[2].encode()).strip(), b'ec C03qM%dbz' % k]
+            sc += snap(tag)
+        else:
+            sc.append(b'w !sh a%d.sh' % k)
+    sc += snap(b'c')
+    sc += [b'ec ' + S1, t_cmdline(case), b'ec ' + S2, b'q', b'ec ' + ALIVE, b'q!']
+    return b'\n'.join(sc) + b'\n'
+
+
+def t_dirstate(d):
+    out = []
+    for n in TN:
+        fp = os.path.join(d, n)
+        if os.path.islink(fp):
+            out.append(['L', os.readlink(fp)])
+        elif os.path.exists(fp):
+            out.append(open(fp, 'rb').read())
+        else:
+            out.append(None)
+    return out
+
+
+def t_run(vi, case, timeout=30):
+    import re
+    d = vlib.case_dir()
+    base = int(time.time())
+    for n, st in case['files'].items():
+        with open(os.path.join(d, n), 'wb') as f:
+            f.write(t_c0(n))
+        t = g_real_stamp(st, base)
+        os.utime(os.path.join(d, n), (t, t))
+    for n, tg in case.get('links', {}).items():
+        os.symlink(tg, os.path.join(d, n))
+        os.utime(os.path.join(d, n), (base - 5000, base - 5000), follow_symlinks=False)
+    with open(os.path.join(d, 's.sh'), 'w') as f:
+        f.write(T_SNAP_SH)
+    for k, st in enumerate(case['steps']):
+        if st[0] == 'acts':
+            with open(os.path.join(d, 'a%d.sh' % k), 'w') as f:
+                f.write(g_act_sh(st[1], base))
+    log = os.path.join(d, 'shim.log')
+    env = {'PATH': '/usr/bin:/bin', 'HOME': d, 'EXINIT': '', 'TERM': 'xterm', 'LINES': '24', 'COLUMNS': '80',
+           'LD_PRELOAD': build_shim(), 'NVSHIM_TARGETS': ':'.join(TN), 'NVSHIM_LOG': log, 'NVSHIM_SCHED': ''}
+    p = subprocess.Popen([vi, '-s', '-e', 'a'], stdin=subprocess.PIPE, stdout=subprocess.PIPE, stderr=subprocess.PIPE, cwd=d, env=env,
+                         start_new_session=True)
+    try:
+        out, err = p.communicate(t_script(case), timeout=timeout)
+        rc = p.returncode
+    except subprocess.TimeoutExpired:
+        try:
+            os.killpg(p.pid, 9)
+        except Exception:
+            p.kill()
+        out, err = p.communicate()
+        rc = None
+
+    def rd(n):
+        fp = os.path.join(d, n)
+        try:
+            return open(fp, 'rb').read() if os.path.exists(fp) else None
+        except OSError:
+            return None
+
+    def snap(tag):
+        ms = rd('snap.%s.m' % tag)
+        if ms is None or rd('snap.%s.cur' % tag) is None:
+            return None
+        sn = {n: None for n in TN}
+        for l in ms.decode('latin-1').split('\n'):
+            w = l.split()
+            if len(w) == 2 and w[0] in sn:
+                sn[w[0]] = (int(w[1]), rd(os.path.join('cont.%s' % tag, w[0])))
+        nl = rd('snap.%s.nlog' % tag)
+        sn['nlog'] = int(nl.split()[0]) if nl and nl.split() else 0
+        cur, alt = rd('snap.%s.cur' % tag), rd('snap.%s.alt' % tag)
+        sn['cur'] = cur.strip().decode('latin-1') if cur else None
+        sn['alt'] = alt.strip().decode('latin-1') if alt and alt.strip() else None
+        return sn
+    calls = []
+    if os.path.exists(log):
+        for l in open(log).read().split('\n'):
+            w = l.split()
+            if len(w) >= 4 and w[0] != '-':
+                calls.append({'i': int(w[0]), 'op': w[1], 'name': w[-1]})
+    okre = rb'"[^"]*"  \[=\d+\]  \[w\]'
+    ob = {'rc': rc, 'hung': rc is None, 'crash': rc is None or rc < 0 or rc >= 100, 'base': base, 'after': t_dirstate(d),
+          'before': t_dirstate(os.path.join(d, 'dir.c')) if os.path.isdir(os.path.join(d, 'dir.c')) else None,
+          'files_after': {n: rd(n) for n in TN}, 'snaps': {'0': snap('0'), 'c': snap('c')}, 'wok': {}, 'calls': calls}
+    for k, st in enumerate(case['steps']):
+        if st[0] in ('e', 'reload', 'w'):
+            ob['snaps']['%d' % (k + 1)] = snap('%d' % (k + 1))
+        if st[0] == 'w':
+            a, b = b'C03qM%daz' % k, b'C03qM%dbz' % k
+            seg = out.split(a, 1)[1].split(b, 1)[0] if a in out and b in out else b'?'
+            ob['wok'][k] = bool(re.search(okre, seg)) and not re.sub(okre, b'', seg).strip()
+    shutil.rmtree(d, ignore_errors=True)
+    seg = out.split(S1, 1)[1] if S1 in out else b''
+    ob['ran'] = S1 in out
+    ob['quit_by_cmd'] = S2 not in seg
+    msg = seg.split(S2, 1)[0]
+    ob['alive'] = ALIVE in seg
+    rest = re.sub(okre, b'', msg)
+    ob['cls'] = 'err' if rest.strip() else 'ok' if rest != msg else 'silent'
+    ob['msg'] = msg[:120].decode('latin-1')
+    return ob
+
+
+def t_track(case, ob):
+    """what the session's snapshots say about every buffer that was opened: name -> {'text', 'dirty', 'sync'}
+    (sync = snapshot entry (mtime, bytes) | None of the buffer's own file when the editor last read it or wrote the
+    buffer to it); also the current / alternate path right before the command.  None if a snapshot is missing."""
+    s0 = ob['snaps'].get('0')
+    if s0 is None or ob['snaps'].get('c') is None or not s0['cur']:
+        return None
+    bufs = {}
+
+    def load(n, sn):
+        bufs[n] = {'text': sn[n][1] if sn.get(n) else b'', 'dirty': False, 'sync': sn.get(n)}
+    cur, alt = s0['cur'], s0['alt']
+    if cur not in TN:
+        return None
+    load(cur, s0)
+    for k, st in enumerate(case['steps']):
+        sn = ob['snaps'].get('%d' % (k + 1))
+        if st[0] in ('e', 'reload', 'w') and (sn is None or sn['cur'] not in TN):
+            return None
+        if st[0] == 'e':
+            if sn['cur'] not in bufs:
+                load(sn['cur'], sn)
+            cur, alt = sn['cur'], sn['alt']
+        elif st[0] == 'reload':
+            if sn.get(cur):
+                bufs[cur]['text'] = sn[cur][1]
+            bufs[cur]['dirty'] = False
+            bufs[cur]['sync'] = sn.get(cur)
+        elif st[0] == 'edit':
+            bufs[cur]['text'] = st[1].encode() + b'\n' + bufs[cur]['text']
+            bufs[cur]['dirty'] = True
+        elif st[0] == 'w':
+            W = cur if st[2] in ('', '%') else alt if st[2] == '#' else st[2]
+            if ob['wok'].get(k) and W == cur:
+                bufs[cur]['dirty'] = False
+                bufs[cur]['sync'] = sn.get(cur)
+    sc = ob['snaps']['c']
+    if sc['cur'] != cur:
+        return None
+    return {'bufs': bufs, 'cur': cur, 'alt': sc['alt']}
+
+
+def t_oracle(case, ob):
+    if ob['crash']:
+        return ['editor crashed or hung (rc=%s)' % ob['rc']]
+    if not ob['ran']:
+        return []
+    tr = t_track(case, ob)
+    if tr is None or ob['before'] is None:
+        return []                                   # the session did not get that far (reported by the comparison)
+    bad = []
+    cmd, arg = case['cmd'], case.get('arg', '')
+    force = cmd.endswith('!')
+    bufs, cur = tr['bufs'], tr['cur']
+    W = cur if arg in ('', '%') else tr['alt'] if arg == '#' else arg
+    sc = ob['snaps']['c']
+    dirty = bufs[cur]['dirty']
+    text = bufs[cur]['text']
+    wrote_cmd = W is not None and not (cmd[0] == 'x' and not dirty)
+    final_calls = ob['calls'][sc['nlog']:]
+    reported_ok = ob['cls'] == 'ok' or (ob['quit_by_cmd'] and wrote_cmd)
+    want = text
+    if cmd.startswith('rw'):
+        b, e = case['rng']
+        want = b''.join(lines_of(text)[b:e])
+
+    def why_protected(n, own):
+        """the file named n exists right before the command and is not what buffer `own` read or wrote last"""
+        now = sc.get(n)
+        if now is None:
+            return None
+        if own is None:
+            return 'exists and is not the current buffer\'s own path%s' % (
+                ' (it is the path of another open buffer)' if n in bufs else ' (it is open in no buffer)')
+        sync = bufs[own]['sync']
+        if sync is None:
+            return 'exists although the name denoted no file when the buffer was loaded'
+        if now[0] > sync[0]:
+            return 'is newer (mtime %+d s) than when the editor last read or wrote it' % (now[0] - sync[0])
+        return None
+    why = None
+    if wrote_cmd and not force and W in TN:
+        why = why_protected(W, cur if W == cur else None)
+    if why:
+        if ob['files_after'][W] != sc[W][1]:
+            bad.append('a write without ! replaced a file that ' + why)
+        if ob['after'] != ob['before']:
+            bad.append('a write without ! that had to be refused changed the directory (target %s)' % why)
+        if reported_ok:
+            bad.append('a write that had to be refused (target %s) was reported as success (message class %s, quit=%s)' % (why, ob['cls'], ob['quit_by_cmd']))
+        if final_calls:
+            bad.append('a write that had to be refused (target %s) still opened %s' % (why, final_calls[0]['name']))
+    if 'a' in cmd and not force:
+        # the save loop of xa: every buffer with its own record
+        for n in sorted(bufs):
+            w2 = why_protected(n, n)
+            if w2:
+                if ob['files_after'][n] != sc[n][1]:
+                    bad.append('xa without ! replaced the file of buffer %s that %s' % (n, w2))
+                if ob['quit_by_cmd']:
+                    bad.append('xa without ! quit although the file of buffer %s %s' % (n, w2))
+    if reported_ok and wrote_cmd and W in TN and not ('a' in cmd and W != cur) and ob['files_after'][W] != want:
+        bad.append('the command reported success but the file does not hold exactly the written lines')
+    if not force and (ob['quit_by_cmd'] or not ob['alive']):
+        for n in sorted(bufs):
+            if bufs[n]['dirty'] and ob['files_after'][n] != bufs[n]['text']:
+                bad.append('the editor quit (or a following :q was accepted) although the modified buffer %s is not in its file' % n)
+    return bad
+
+
+def t_ambiguous(case, ob):
+    """a buffer whose recorded stamp and whose file's present stamp both come from the editor's own writes during this
+    session but in different seconds: the model writes everything at one instant, the comparison would depend on the clock"""
+    tr = t_track(case, ob)
+    if tr is None:
+        return True
+    lo, hi = ob['base'] - 2, ob['base'] + 600
+    sc = ob['snaps']['c']
+    for n, b in tr['bufs'].items():
+        if b['sync'] and sc.get(n) and lo <= b['sync'][0] <= hi and lo <= sc[n][0] <= hi and b['sync'][0] != sc[n][0]:
+            return True
+    return False
+
+
+def t_model_request(case):
+    ix = {n: i for i, n in enumerate(TN)}
+
+    def a_of(a):
+        return '-' if a == '' else a if a in ('%', '#') else str(ix[a])
+    steps = ['E@0@0']
+    for st in case['steps']:
+        if st[0] == 'e':
+            steps.append('E@%s@%d' % (a_of(st[1]), 1 if st[2] else 0))
+        elif st[0] == 'reload':
+            steps.append('E@-@1')
+        elif st[0] == 'edit':
+            steps.append('P@' + vlib.hx(st[1].encode() + b'\n'))
+        elif st[0] == 'w':
+            steps.append('W@%s@%s@-' % (st[1] or '-', a_of(st[2])))
+        else:
+            for k, (kind, name, stamp) in enumerate(st[1]):
+                if kind in ('write', 'replace'):
+                    steps.append('F@%s@%d@%s@%d' % (kind[0], ix[name], vlib.hx(g_act_content(k)), G_MODEL_STAMP[stamp]))
+                elif kind == 'touch':
+                    steps.append('F@t@%d@%d' % (ix[name], G_MODEL_STAMP[stamp]))
+                else:
+                    steps.append('F@d@%d' % ix[name])
+    cmd, arg = case['cmd'], case.get('arg', '')
+    if cmd in ('w', 'w!', 'rw', 'rw!'):
+        steps.append('W@%s@%s@%s' % ('!' if cmd.endswith('!') else '-', a_of(arg), '%d,%d' % tuple(case['rng']) if cmd.startswith('rw') else '-'))
+    else:
+        steps.append('Q@%s@%s' % (cmd, a_of(arg)))
+    return 'ts names=%d links=%s files=%s steps=%s' % (
+        len(TN), ','.join('%d>%d' % (ix[a], ix[b]) for a, b in case.get('links', {}).items()) or '-',
+        ','.join('%d:%s:%d' % (ix[n], vlib.hx(t_c0(n)), G_MODEL_STAMP[st]) for n, st in case['files'].items()) or '-', ';'.join(steps))
+
+
+def t_compare(case, ob, mline):
+    m = dict(p.split('=', 1) for p in mline.split(' '))
+    diffs = []
+    if not ob['ran'] or ob['snaps'].get('c') is None:
+        return ['the session did not reach the command under test']
+    sc = ob['snaps']['c']
+    mcur = TN[int(m['pcur'])] if m['pcur'] != '-' else None
+    malt = TN[int(m['palt'])] if m['palt'] != '-' else None
+    if mcur != sc['cur'] or malt != sc['alt']:
+        diffs.append('current / alternate path before the command: model %s / %s, editor %s / %s' % (mcur, malt, sc['cur'], sc['alt']))
+    mq = m['q'] == '1'
+    if mq != ob['quit_by_cmd']:
+        diffs.append('quit: model %s editor %s' % (mq, ob['quit_by_cmd']))
+    if not mq and not ob['quit_by_cmd']:
+        mst = 'ok' if m['st'] == 'ok' else 'err'
+        if ob['cls'] != mst and not (ob['cls'] == 'silent' and case['cmd'][0] == 'x'):
+            diffs.append('message class: model %s (%s) editor %s (%r)' % (mst, m['st'], ob['cls'], ob['msg']))
+        if (m['dirty'] == '1') != ob['alive']:
+            diffs.append('following :q refused: model %s editor %s' % (m['dirty'] == '1', ob['alive']))
+    for n, mv, rv in zip(TN, m['dir'].split(','), ob['after']):
+        if mv.startswith('L'):
+            mval = ['L', TN[int(mv[1:])]]
+        else:
+            mval = None if mv == 'absent' else vlib.unhx(mv)
+        if mval != rv:
+            diffs.append('name %s: model %s, editor %s' % (n, g_show(mval), g_show(rv)))
+    return diffs
+
+
+T_SHAPES = {
+    # how the buffers are opened (the editor starts on a): the table afterwards, current buffer first
+    'a|b': [['e', 'b', True], ['e', 'a', True]],
+    'a|c|b': [['e', 'b', True], ['e', 'c', True], ['e', 'a', True]],
+    'a|d|c|b': [['e', 'b', True], ['e', 'c', True], ['e', 'd', True], ['e', 'a', True]],
+    'c|b|a': [['e', 'b', True], ['e', 'c', True]],
+    'b|a (by e #)': [['e', 'b', True], ['e', 'a', True], ['e', '#', True]],
+}
+T_TABLE = {'a|b': ['a', 'b'], 'a|c|b': ['a', 'c', 'b'], 'a|d|c|b': ['a', 'd', 'c', 'b'], 'c|b|a': ['c', 'b', 'a'], 'b|a (by e #)': ['b', 'a']}
+
+
+def t_case(shape, tk, spell, state, cmd, dirty, tdirty=False, sync='read'):
+    """tk = which slot the target is: cur | alt | deep | notopen | link ; spell = how the command names it"""
+    table = T_TABLE[shape]
+    cur = table[0]
+    tname = {'cur': cur, 'alt': table[1], 'deep': table[-1], 'notopen': 'z', 'link': 'lb'}[tk]
+    files = {n: 'old' for n in table}
+    links = {}
+    acts = []
+    if tk == 'notopen':
+        if state in ('exists', 'epoch'):
+            files['z'] = 'older2' if state == 'exists' else 'epoch'
+    elif tk == 'link':
+        links['lb'] = table[-1]
+    else:
+        if state in ('absent', 'created'):
+            del files[tname]
+        if state == 'created':
+            acts = [['write', tname, 'newer']]
+        elif state == 'newer':
+            acts = [['write', tname, 'newer']]
+        elif state == 'touched':
+            acts = [['touch', tname, 'newer']]
+        elif state == 'removed':
+            acts = [['remove', tname, None]]
+    steps = [list(s) for s in T_SHAPES[shape]]
+    if tdirty and tk in ('alt', 'deep'):
+        # the target buffer is modified in memory: edit it right after it was loaded
+        i = [k for k, s in enumerate(steps) if s[0] == 'e' and s[1] == tname]
+        steps.insert(i[0] + 1 if i else 0, ['edit', 'tm'])          # (a is loaded by the command line)
+    if sync == 'wrote':
+        steps += [['edit', 'm1'], ['w', '!', '']]
+    elif sync == 'reload':
+        steps += [['edit', 'm1'], ['reload']]
+    if dirty:
+        steps.append(['edit', 'm2'])
+    if acts:
+        steps.append(['acts', acts])
+    arg = {'none': '', '%': '%', '#': '#', 'name': tname}[spell]
+    c = {'stream': 'table', 'shape': shape, 'slot': tk, 'state': state, 'files': files, 'links': links, 'steps': steps, 'cmd': cmd, 'arg': arg}
+    if cmd.startswith('rw'):
+        c['rng'] = [0, 1]
+    return c
+
+
+def table_cases():
+    out = []
+    CM = ['w', 'w!', 'rw', 'rw!', 'wq', 'wq!', 'x', 'x!']
+    for shape in T_SHAPES:
+        n = len(T_TABLE[shape])
+        targets = [('cur', 'none'), ('alt', '#'), ('alt', 'name'), ('notopen', 'name')]
+        if shape in ('a|b', 'c|b|a'):
+            targets += [('cur', '%'), ('cur', 'name')]
+        if n > 2:
+            targets.append(('deep', 'name'))
+        if shape in ('a|b', 'a|c|b'):
+            targets.append(('link', 'name'))
+        for tk, spell in targets:
+            if tk == 'notopen':
+                states = ['exists', 'epoch', 'absent']
+            elif tk == 'link':
+                states = ['as loaded']
+            else:
+                states = ['as loaded', 'newer', 'absent', 'created', 'removed']
+                if tk == 'cur' and spell == 'none':
+                    states.append('touched')
+            for state in states:
+                for cmd in CM + (['xa', 'xa!'] if shape in ('a|c|b', 'c|b|a') and spell != '%' else []):
+                    if cmd.startswith('rw') and shape == 'a|d|c|b':
+                        continue
+                    out.append(t_case(shape, tk, spell, state, cmd, True))
+                if state in ('as loaded', 'newer', 'exists', 'created'):
+                    for cmd in ('w', 'x', 'wq'):
+                        out.append(t_case(shape, tk, spell, state, cmd, False))
+                if tk in ('alt', 'deep') and state in ('as loaded', 'newer') and spell in ('#', 'name'):
+                    for cmd in ('w', 'w!', 'wq', 'x', 'xa'):
+                        out.append(t_case(shape, tk, spell, state, cmd, True, tdirty=True))
+        # the current buffer in step by an earlier :w! / by :e! (re-read), its own file or another slot's file as target
+        for sync in ('wrote', 'reload'):
+            for tk, spell, state in (('cur', 'none', 'as loaded'), ('cur', 'none', 'newer'), ('cur', 'none', 'removed'), ('alt', '#', 'as loaded'),
+                                     ('alt', 'name', 'newer')):
+                for cmd in ('w', 'w!', 'wq', 'x', 'xa'):
+                    out.append(t_case(shape, tk, spell, state, cmd, True, sync=sync))
+    # one buffer only: `#` is not set
+    for cmd in ('w', 'w!', 'wq', 'x'):
+        out.append({'stream': 'table', 'shape': 'a', 'slot': 'alt', 'state': 'not set', 'files': {'a': 'old', 'b': 'old'}, 'links': {},
+                    'steps': [['edit', 'm2']], 'cmd': cmd, 'arg': '#'})
+    # an earlier forced write from ANOTHER buffer made a buffer's file newer than that buffer remembers: its own :w / :wq / :xa
+    for cmd in ('w', 'w!', 'wq', 'x', 'xa'):
+        out.append({'stream': 'table', 'shape': 'b|a', 'slot': 'cur', 'state': 'overwritten from another buffer', 'files': {'a': 'old', 'b': 'old'}, 'links': {},
+                    'steps': [['e', 'b', True], ['e', 'a', True], ['edit', 'm1'], ['w', '!', 'b'], ['e', 'b', True], ['edit', 'm2']], 'cmd': cmd, 'arg': ''})
+        out.append({'stream': 'table', 'shape': 'a|b', 'slot': 'alt', 'state': 'overwritten from another buffer', 'files': {'a': 'old', 'b': 'old'}, 'links': {},
+                    'steps': [['e', 'b', True], ['e', 'a', True], ['edit', 'm1'], ['w', '!', '#'], ['w', '!', '']], 'cmd': cmd, 'arg': ''})
+    return out
+
+
+def table_random(rng, n):
+    """random sessions over the table: 1..4 more buffers opened in random order, edits, earlier writes, foreign operations,
+    re-reads, then a random write command with a random path argument"""
+    out = []
+    for _ in range(n):
+        pool = ['a'] + [x for x in ('b', 'c', 'd') if rng.chance(2, 3)]
+        if len(pool) == 1:
+            pool.append('b')
+        files = {x: 'old' for x in pool if x == 'a' or rng.chance(4, 5)}
+        links = {}
+        if rng.chance(1, 2):
+            files['z'] = rng.choice(['older2', 'epoch', 'old'])
+        if rng.chance(1, 4):
+            links['lb'] = rng.choice(pool)
+        steps = []
+        ne = 0
+        for x in pool[1:]:
+            steps.append(['e', x, True])
+            if rng.chance(1, 3):
+                ne += 1
+                steps.append(['edit', 'e%d' % ne])
+        for _r in range(rng.range(1, 5)):
+            k = rng.below(12)
+            if k < 4:
+                steps.append(['e', rng.choice(pool + ['#']), rng.chance(3, 4)])
+            elif k < 7:
+                ne += 1
+                steps.append(['edit', 'e%d' % ne])
+            elif k < 9:
+                acts = []
+                for _a in range(rng.range(1, 3)):
+                    kind = rng.choice(['write', 'write', 'replace', 'touch', 'remove'])
+                    acts.append([kind, rng.choice(pool + ['z']), None if kind == 'remove' else rng.choice(['older', 'epoch', 'newer', 'newer', 'newer2'])])
+                steps.append(['acts', acts])
+            elif k < 11:
+                # an earlier :w of the session; a forced write to another open buffer's path would make the clock visible
+                # (two writes of the editor in different seconds), so `!` only goes with the own path or z
+                a = rng.choice(['', '', '%', '#', 'z'] + pool)
+                steps.append(['w', '!' if (a in ('', '%', 'z') and rng.chance(1, 2)) else '', a])
+            else:
+                steps.append(['reload'])
+        cmd = rng.choice(['w', 'w', 'w!', 'rw', 'rw!', 'wq', 'wq!', 'x', 'x!', 'xa', 'xa!'])
+        c = {'stream': 'table', 'shape': 'random', 'slot': 'random', 'state': 'random', 'files': files, 'links': links, 'steps': steps, 'cmd': cmd,
+             'arg': rng.choice(['', '', '%', '#', '#', 'z', 'lb' if links else 'z'] + pool)}
+        if cmd.startswith('rw'):
+            c['steps'].append(['edit', 'er'])
+            c['rng'] = [0, 1]
+        out.append(c)
+    return out
+
+
 def run(ctx):
     res = ctx.res
     rng = ctx.rng
@@ -824,11 +1337,14 @@ def run(ctx):
                 'Guard stream: one evaluation = one editor session (name layout x foreign operations between the last read / :w and the command x command), all non-trivial')
     work = []          # (case, sched)
     gwork = []         # cases of the guard stream (no faults)
+    twork = []         # cases of the table stream (several buffers, no faults)
     if ctx.replay:
         rp = json.load(open(ctx.replay))
         inp = rp.get('input') or {}
         if 'case' in inp and inp['case'].get('stream') == 'guard':
             gwork.append(inp['case'])
+        elif 'case' in inp and inp['case'].get('stream') == 'table':
+            twork.append(inp['case'])
         elif 'case' in inp:
             work.append((inp['case'], [tuple(s) for s in inp.get('sched', [])]))
     else:
@@ -839,10 +1355,14 @@ def run(ctx):
                 c = c.get('input', c)
                 if c['case'].get('stream') == 'guard':
                     gwork.append(c['case'])
+                elif c['case'].get('stream') == 'table':
+                    twork.append(c['case'])
                 else:
                     work.append((c['case'], [tuple(s) for s in c.get('sched', [])]))
         gwork += guard_cases()
         gwork += guard_random(rng.fork('guard sessions'), 160 if ctx.quick else 3000)
+        twork += table_cases()
+        twork += table_random(rng.fork('table sessions'), 200 if ctx.quick else 4000)
         bases = base_cases()
         dry = vlib.pmap(lambda c: run_case(vi, c, []), bases)
         strata = {}        # (command, history kind, single/multi fault) -> schedules
@@ -934,6 +1454,7 @@ def run(ctx):
             res.sample({'case': case, 'sched': [list(s) for s in sched], 'class': ob['cls'], 'quit': ob['quit_by_cmd'], 'q_refused': ob['alive'], 'calls': len(ob['calls'])})
     res.extra['editor_runs'] = len(work)
     run_guard(ctx, vi, model, gwork)
+    run_table(ctx, vi, model, twork)
 
 
 def run_guard(ctx, vi, model, gwork):
@@ -990,10 +1511,70 @@ def run_guard(ctx, vi, model, gwork):
     res.extra['guard_stream_refused'] = nref
 
 
-def g_snapshow(sn):
+def g_snapshow(sn, names=('f', 't', 'r')):
     if sn is None:
         return None
-    return {n: ('absent' if sn[n] is None else {'mtime': sn[n][0], 'bytes': None if sn[n][1] is None else len(sn[n][1])}) for n in ('f', 't', 'r')}
+    out = {n: ('absent' if sn[n] is None else {'mtime': sn[n][0], 'bytes': None if sn[n][1] is None else len(sn[n][1])}) for n in names}
+    for k in ('cur', 'alt'):
+        if k in sn:
+            out[k] = sn[k]
+    return out
+
+
+def run_table(ctx, vi, model, twork):
+    """the table stream: sessions with several open buffers; oracle on the snapshots, comparison with the model (request ts)"""
+    res = ctx.res
+    if not twork:
+        return
+
+    def one(case):
+        ob = t_run(vi, case)
+        if ob['crash']:
+            ob = t_run(vi, case, timeout=90)
+        return ob
+    obs = vlib.pmap(one, twork)
+    out_m = None
+    if model:
+        from props import c01
+        reqs = [t_model_request(c) for c in twork]
+        rc, out_m, err = c01.run_model(model, reqs)
+        if rc != 0 or len(out_m) != len(reqs):
+            res.disagree({'what': 'model driver failed on the table stream: rc=%d, %d answers for %d requests' % (rc, len(out_m), len(reqs)), 'stderr': err[-800:]})
+            out_m = None
+    nref = namb = 0
+    for i, (case, ob) in enumerate(zip(twork, obs)):
+        res.evaluations += 1
+        res.count('table cmd ' + case['cmd'] + (' <path>' if case.get('arg') else ''))
+        res.count('table: ' + case['shape'])
+        res.count('table target: %s slot, %s' % (case['slot'], case['state']))
+        res.count('table target spelled: ' + ('nothing' if not case.get('arg') else case['arg'] if case['arg'] in ('%', '#') else 'a name'))
+        if ob['cls'] == 'err' and not ob['quit_by_cmd']:
+            nref += 1
+        res.nontriv('t%d' % i)
+        bad = t_oracle(case, ob)
+        if bad:
+            sc = ob['snaps'].get('c')
+            res.violation({'what': bad[0], 'all': bad, 'input': {'case': case},
+                           'expected': {'refused': True, 'directory': [g_show(v) for v in ob['before'] or []]} if 'refused' in bad[0] or 'without !' in bad[0] else {'see': 'what'},
+                           'observed': {'class': ob['cls'], 'message': ob['msg'], 'quit_by_command': ob['quit_by_cmd'], 'q_refused': ob['alive'],
+                                        'directory': [g_show(v) for v in ob['after']], 'snapshot_at_load': g_snapshow(ob['snaps'].get('0'), TN),
+                                        'snapshot_before_command': g_snapshow(sc, TN)},
+                           'script': t_script(case).decode('latin-1')})
+            continue
+        if out_m is not None:
+            if t_ambiguous(case, ob) and ob['ran'] and ob['snaps'].get('c') is not None:
+                namb += 1
+                continue
+            diffs = t_compare(case, ob, out_m[i])
+            if diffs:
+                res.disagree({'what': 'model and editor differ (table stream): ' + '; '.join(diffs), 'input': {'case': case}, 'model': out_m[i][:300],
+                              'implementation': {'class': ob['cls'], 'message': ob['msg'], 'quit': ob['quit_by_cmd'], 'alive': ob['alive'],
+                                                 'directory': [g_show(v) for v in ob['after']]}, 'script': t_script(case).decode('latin-1')})
+        if i % 257 == 0:
+            res.sample({'case': case, 'class': ob['cls'], 'quit': ob['quit_by_cmd'], 'q_refused': ob['alive'], 'directory': [g_show(v) for v in ob['after']]})
+    res.extra['table_stream_sessions'] = len(twork)
+    res.extra['table_stream_refused'] = nref
+    res.extra['table_stream_clock_dependent_skipped_in_comparison'] = namb
 
 
 def clip(b, n=120):
